@@ -83,7 +83,11 @@ def witness(prog, lines, clause, line):
 
 
 def mutate(rnd, prog, lines):
-    res = [i for i, ln in enumerate(lines) if ln['k'] == 'resume' and ln['f'] == 0 and ln['x'] != 0]
+    if any(ln['k'] == 'fire' and ln['y'] == 5 and ln['d'] % 100 == 1 for ln in lines) or \
+            any(ln['k'] == 'resume' and ln['f'] == 2 for ln in lines):
+        return None      # internal errors / timeouts: the monitor deliberately judges less there
+    gens = {ln['e'] for ln in lines if ln['k'] == 'ret' and ln['f'] == 2}
+    res = [i for i, ln in enumerate(lines) if ln['k'] == 'resume' and ln['f'] == 0 and ln['x'] != 0 and ln['x'] not in gens]
     if not res:
         return None
     i = rnd.choice(res)
